@@ -132,6 +132,72 @@ Lemma snd_validate H pt st u p :
   end.
 Proof. apply snd_validate_with. Qed.
 
+(* ------------------------------------------------------------------ stores produced by the server's write paths are well formed *)
+Lemma write_names_none x st : lookup (uname x) st = None -> map uname (write x st) = map uname st ++ [uname x].
+Proof. induction st as [|u st IH]; cbn; [reflexivity|].
+  destruct (str_eqb (uname u) (uname x)) eqn:E; [discriminate|]. cbn. intros Hl. rewrite (IH Hl). reflexivity. Qed.
+
+Lemma lookup_none_notin n st : lookup n st = None -> ~ In n (map uname st).
+Proof. induction st as [|u st IH]; cbn; [intros _ []|].
+  destruct (str_eqb (uname u) n) eqn:E; [discriminate|]. intros Hl [Heq|Hin].
+  - rewrite Heq, str_eqb_refl in E. discriminate.
+  - exact (IH Hl Hin). Qed.
+
+Lemma write_keeps_wf x st : lower (uname x) = uname x -> store_wf st -> store_wf (write x st).
+Proof.
+  intros Hx [Hlow Hnd]. split.
+  - intros z Hz. apply write_in in Hz. destruct Hz as [->|Hz]; [exact Hx|apply Hlow; exact Hz].
+  - destruct (lookup (uname x) st) as [y|] eqn:El.
+    + rewrite (write_names x st y El). exact Hnd.
+    + rewrite (write_names_none x st El). apply lookup_none_notin in El.
+      apply NoDup_rev in Hnd. rewrite <- (rev_involutive (map uname st ++ [uname x])).
+      apply NoDup_rev. rewrite rev_app_distr. cbn. constructor; [rewrite <- in_rev; exact El|exact Hnd].
+Qed.
+
+Lemma filter_keeps_wf (f : user -> bool) st : store_wf st -> store_wf (filter f st).
+Proof.
+  intros [Hlow Hnd]. split.
+  - intros z Hz. apply filter_In in Hz. apply Hlow. apply Hz.
+  - induction st as [|u st IH]; cbn; [constructor|].
+    inversion Hnd as [|? ? Hni Hnd']; subst.
+    assert (Hlow' : names_lower st) by (intros z Hz; apply Hlow; right; exact Hz).
+    destruct (f u); cbn; [constructor|]; try (apply IH; assumption).
+    intros Hin. apply Hni. apply in_map_iff in Hin. destruct Hin as [z [Hz Hin]].
+    apply filter_In in Hin. rewrite <- Hz. apply in_map. apply Hin.
+Qed.
+
+Lemma migrates_with_lookup lim H pt st u p usr : migrates_with lim H pt st u p = Some usr -> lookup (lower u) st = Some usr.
+Proof. unfold migrates_with. destruct (is_empty u || is_empty p); [discriminate|].
+  destruct (lookup (lower u) st) as [x|]; [|discriminate].
+  destruct (is_bcrypt (upass x)); [discriminate|].
+  destruct (braces (upass x) && negb pt); [discriminate|].
+  destruct (str_eqb _ (sha H p) && (N.of_nat (length p) <? lim)); [|discriminate].
+  intros Hx; injection Hx as <-. reflexivity. Qed.
+
+Lemma validate_keeps_wf H pt st u p : store_wf st -> store_wf (snd (validate H pt st u p)).
+Proof.
+  intros Hwf. rewrite snd_validate. unfold migrates.
+  destruct (migrates_with 72 H pt st u p) as [usr|] eqn:Em; [|exact Hwf].
+  apply migrates_with_lookup in Em. destruct (lookup_some _ _ _ Em) as [Hin Hn].
+  apply write_keeps_wf; [|exact Hwf]. cbn [uname]. apply (proj1 Hwf). exact Hin.
+Qed.
+
+Lemma sstep_keeps_wf H st o : store_wf st -> store_wf (sstep H st o).
+Proof.
+  intros Hwf. destruct o as [n c ps|n|n c|pt u p]; cbn [sstep].
+  - unfold set_user. apply write_keeps_wf; [cbn [uname]; apply lower_idem|exact Hwf].
+  - unfold delete_user. apply filter_keeps_wf. exact Hwf.
+  - apply change_keeps_wf. exact Hwf.
+  - apply validate_keeps_wf. exact Hwf.
+Qed.
+
+Lemma build_wf H ops : store_wf (build H ops).
+Proof.
+  unfold build. assert (Hgen : forall st, store_wf st -> store_wf (fold_left (sstep H) ops st)).
+  { induction ops as [|o ops IH]; intros st Hwf; cbn [fold_left]; [exact Hwf|]. apply IH. apply sstep_keeps_wf. exact Hwf. }
+  apply Hgen. split; [intros x []|constructor].
+Qed.
+
 Section Laws.
   Variable H : hashes.
   (* SHA-256 idealised: no collisions *)
@@ -342,6 +408,14 @@ Proof.
   destruct (str_eqb n (lower u)); [|reflexivity].
   rewrite (verdict_some_iff H A). cbn [upass]. unfold permitted, has_perm. cbn [uperms]. reflexivity.
 Qed.
+
+(* the first half of the property for every store the server's write paths can produce: no side condition *)
+Lemma validate_iff_reachable H pt ops u p : hash_laws H ->
+  (fst (validate H pt (build H ops) u p) = true <->
+   u <> [] /\ p <> [] /\
+   exists usr, In usr (build H ops) /\ lower (uname usr) = lower u /\
+               cred_matches H pt (classify (upass usr)) p /\ permitted usr = true).
+Proof. intros HL. apply validate_iff'; [exact HL|apply build_wf]. Qed.
 
 (* the laws are satisfiable: the stand-in used by the correspondence run satisfies them *)
 Lemma toy_laws : hash_laws toy.
